@@ -89,6 +89,9 @@ func ZZ_C19_InstantTimeStamp() {
 //vf: qtimeout=30s
 func ZZ_C19_Units() {
 	h := helper
+	// a server-time correction is in force: functions of an EXPLICIT instant do not depend on it
+	SetDelta(int64(zzvf.IntRange(0, 7200000)) - 3600000)
+	defer SetDelta(0)
 	t := zzvf.Int64()
 	zzvf.Assume(t >= h.BASE_TIME)
 	zzvf.Assume(t < h.BASE_TIME+36525*MILLIS_PER_DAY)
